@@ -31,10 +31,19 @@ def run_impl_many(cases: List[dict], chunk: int = 150) -> List[Any]:
 
 
 # ------------------------------------------------------------------ model / spec side
+FRAG: Dict[str, bool] = {}   # canonical case text -> the proved-fragment flag computed in Coq (ShowFrag.case_in_F01)
+
+
+def case_key(c: dict) -> str:
+    return json.dumps(c, sort_keys=True)
+
+
 def coq_rows(prop: str, cases: List[dict], model_ok: bool) -> List[Tuple[Optional[list], list]]:
-    """(model rows or None, spec rows) per case"""
+    """(model rows or None, spec rows) per case; also records the Coq-computed fragment flag in FRAG"""
     if model_ok:
-        vals = core.coq_values(prop, eqlgen.HEADER, [f"both_rows ({eqlgen.g_case(c)})" for c in cases], chunk=120)
+        vals = core.coq_values(prop, eqlgen.HEADER, [f"rows_and_frag ({eqlgen.g_case(c)})" for c in cases], chunk=120)
+        for c, v in zip(cases, vals):
+            FRAG[case_key(c)] = bool(v[2])
         return [(v[0], v[1]) for v in vals]
     vals = core.coq_values(prop, eqlgen.SPEC_ONLY_HEADER, [f"spec_rows ({eqlgen.g_case(c)})" for c in cases], chunk=120)
     return [(None, v) for v in vals]
@@ -149,7 +158,7 @@ def run_check(prop: str, tier: str, seed: int, replay: Optional[dict], *, profil
     rep.oblige("build:spec", ok_spec, "" if ok_spec else core.first_error(log))
     model_ok = core.standard_proof_steps(rep, prop, targets)
     if model_ok:
-        ok_show, log = core.coq_make(["Eql/Show.vo"])
+        ok_show, log = core.coq_make(["Eql/Show.vo", "Eql/ShowFrag.vo"])
         rep.oblige("build:model-printer", ok_show, "" if ok_show else core.first_error(log))
         model_ok = ok_show
     if not ok_spec:
